@@ -2349,11 +2349,11 @@ Section Parse.
         destruct (rev b) as [|x xs].
         - change (gl_toks U F [] l) with (@nil token). cbn [app]. rewrite E2. cbn [app]. eexists. split.
           + apply chain_peek_bar. destruct (after_flags_props _ A2). auto.
-          + cbn [fst snd]. repeat split; auto.
+          + cbn [fst snd]. split; [repeat split; reflexivity|split; auto].
         - destruct (gl_toks_head6 x xs l) as (t3 & r3 & E3 & A3 & K3 & B3 & S3 & L3). rewrite E3. cbn [app].
           eexists. split.
           + apply chain_peek_nobar; auto. destruct (after_flags_props _ A3). auto.
-          + cbn [fst snd]. repeat split; auto. }
+          + cbn [fst snd]. split; [exact K3|split; auto]. }
       destruct Epk as (pk & Epk & (K1 & K2 & K3) & S1 & L1).
       unfold bind at 1. rewrite Epk. cbv zeta. rewrite K1, K2, K3, S1, L1.
       unfold bind at 1. unfold bind at 1.
@@ -2453,6 +2453,105 @@ Section Parse.
       unfold ret at 1. rewrite rev_involutive. reflexivity.
   Qed.
 
+  Lemma chain_toks_head : forall h l, chain_wf F h = true ->
+    exists t ts, chain_toks U F h l = t :: ts /\ after_flags t = true.
+  Proof.
+    intros h l W. destruct h as [cov rules|cov b i la rules|bt input la acts]; cbn [chain_wf] in W; split_wf' W;
+      unfold chain_toks; cbv zeta.
+    - match goal with Hx : forallb _ rules = true |- _ => apply forallb_Forall in Hx; rename Hx into W0 end.
+      destruct cov as [|g cov']; [discriminate|]. destruct rules as [|r rules']; [discriminate|].
+      inversion W0 as [|? ? Hr _]; subst. apply andb_true_iff in Hr. destruct Hr as [Hr _].
+      destruct r as [|[[[b i] la] a] r']; [discriminate|]. cbn [combine]. unfold flat_rules.
+      cbn [map concat fst snd app chain1_toks].
+      destruct (rev b) as [|x xs].
+      + change (gl_toks U F [] l) with (@nil token). cbn [app]. eexists. eexists. split; reflexivity.
+      + destruct (gl_toks_head x xs l) as (t & ts & E & A). rewrite E. cbn [app]. eauto.
+    - destruct b as [|gl r]; [destruct i as [|gl r]; [destruct la as [|gl r]|]|]; cbn [defcls_toks app];
+        eexists; eexists; split; reflexivity.
+    - destruct (rev bt) as [|s r].
+      + cbn [sets_toks map concat app]. eexists. eexists. split; reflexivity.
+      + unfold sets_toks at 1. cbn [map concat]. unfold gs_toks at 1. cbn [app]. eexists. eexists. split; reflexivity.
+  Qed.
+
+  Lemma chain_loop_ok : forall hs hdr h l fuel acc t0 rest,
+    Forall (fun h => chain_wf F h = true) (h :: hs) ->
+    ends_list t0 = true -> ityp_eqb (ttyp t0) TOr = false ->
+    (length (chain_toks U F h l ++ subs_toks U F hdr (map Chn hs) false (l + chain_dl h) ++ t0 :: rest) < fuel)%nat ->
+    chainctx_loop F endl fuel e3 e3 e3 acc (chain_toks U F h l ++ subs_toks U F hdr (map Chn hs) false (l + chain_dl h) ++ t0 :: rest)
+    = POk (acc ++ Chn h :: map Chn hs, t0 :: rest).
+  Proof.
+    induction hs as [|h' hs IH]; intros hdr h l fuel acc t0 rest Hw Ht Hto Hf;
+      inversion Hw as [|? ? Hc Hcs]; subst;
+      pose proof (nclasses6_len h l) as Hk.
+    - cbn [map subs_toks app] in *.
+      replace fuel with (nclasses6 h + S (fuel - nclasses6 h - 1))%nat by (clear - Hf Hk; fuel_tac).
+      rewrite chain_step; auto; [|clear - Hf Hk; fuel_tac].
+      unfold chain_cont. unfold bind at 1. destruct (ends_list_props _ Ht) as (A & B & C).
+      rewrite optional_miss by auto. reflexivity.
+    - cbn [map subs_toks] in *. cbn [sub_toks sub_dl] in *. rewrite <- !app_assoc in *. cbn [app] in *.
+      set (l0 := l + chain_dl h) in *.
+      replace fuel with (nclasses6 h + S (fuel - nclasses6 h - 1))%nat by (clear - Hf Hk; fuel_tac).
+      rewrite chain_step; auto; [|clear - Hf Hk; fuel_tac].
+      unfold chain_cont. unfold bind at 1. rewrite optional_hit by reflexivity.
+      unfold bind at 1. rewrite optional_hit by reflexivity.
+      rewrite (IH hdr h' (l0 + 1) _ (acc ++ [Chn h]) t0 rest); auto.
+      + rewrite <- app_assoc. reflexivity.
+      + clear - Hf Hk. fuel_tac.
+  Qed.
+
+  Lemma chain_subs_shape : forall subs,
+    forallb (fun s => match s with Chn h => chain_wf F h | _ => false end) subs = true ->
+    exists hs, subs = map Chn hs /\ Forall (fun h => chain_wf F h = true) hs.
+  Proof.
+    induction subs as [|s r IH]; intros H.
+    - exists []. split; auto.
+    - cbn [forallb] in H. apply andb_true_iff in H. destruct H as [H1 H2].
+      destruct (IH H2) as (hs & E & Hc). destruct s; try discriminate. exists (h :: hs). subst. split; auto.
+  Qed.
+
+  Lemma gsub_one_chain : forall lk l fu acc t0 rest,
+    chain_lookup_wf F lk = true -> ends_list t0 = true -> ityp_eqb (ttyp t0) TOr = false ->
+    (length (lookup_toks U F k_GSUB lk l ++ t0 :: rest) < S (S fu))%nat ->
+    parse_loop F endl (S (S fu)) acc (lookup_toks U F k_GSUB lk l ++ t0 :: rest)
+    = parse_loop F endl (S fu) (acc ++ [lk]) (t0 :: rest).
+  Proof.
+    intros lk l fu acc t0 rest Hlk Ht Hto Hf.
+    unfold chain_lookup_wf in Hlk. split_wf Hlk.
+    destruct lk as [ty fl subs]. cbn [l_type l_flags l_subs] in *.
+    match goal with Hx : (ty =? 6) = true |- _ => apply N.eqb_eq in Hx; subst ty end.
+    match goal with Hx : forallb _ subs = true |- _ => destruct (chain_subs_shape _ Hx) as (hs & Es & Hcs) end.
+    subst subs. destruct hs as [|h hs]; [discriminate|].
+    unfold lookup_toks, hdr_toks in *. cbn [l_subs l_type l_flags map subs_toks sub_toks sub_dl app] in *.
+    rewrite <- !app_assoc in *. cbn [app] in *.
+    cbn [parse_loop]. unfold bind at 1. cbn [read ttyp tval].
+    change (list_eqb (k_GSUB ++ digits 6) k_GSUB1) with false.
+    change (list_eqb (k_GSUB ++ digits 6) k_GSUB2) with false.
+    change (list_eqb (k_GSUB ++ digits 6) k_GSUB3) with false.
+    change (list_eqb (k_GSUB ++ digits 6) k_GSUB4) with false.
+    change (list_eqb (k_GSUB ++ digits 6) k_GSUB5) with false.
+    change (list_eqb (k_GSUB ++ digits 6) k_GSUB6) with true. cbv iota.
+    unfold bind at 1. unfold read_chainctx. unfold bind at 1.
+    inversion Hcs as [|? ? Hc _]; subst.
+    rewrite header_ok'; auto; [| |clear - Hf; fuel_tac].
+    2:{ destruct (chain_toks_head h l Hc) as (t & ts & E & A). rewrite E. cbn [app]. eauto. }
+    unfold bind at 1. fold e3.
+    rewrite (chain_loop_ok hs _ h l (S (S fu)) [] t0 rest); auto; try (clear - Hf; fuel_tac).
+  Qed.
+
+  Lemma gsub6_parse_ok : forall ll l fuel acc e,
+    Forall (fun lk => gsub_lookup_wf6 F lk = true) ll ->
+    (length (gsub_toks U F ll l ++ [tk TEOF [] e]) < fuel)%nat ->
+    parse_loop F endl fuel acc (gsub_toks U F ll l ++ [tk TEOF [] e]) = POk (acc ++ ll, []).
+  Proof.
+    apply (gsub_list_ok (fun lk => gsub_lookup_wf6 F lk = true)).
+    { intros lk H E. unfold gsub_lookup_wf6, gsub_lookup_wf5, gsub_lookup_wf, ctx_lookup_wf, chain_lookup_wf in H.
+      rewrite E in H. cbn [is_nil negb] in H. rewrite !andb_false_r in H. discriminate. }
+    intros lk l fu acc lx rest Hw Hf. unfold gsub_lookup_wf6 in Hw. apply orb_true_iff in Hw.
+    destruct Hw as [Hw|Hw]; [|apply gsub_one_chain; auto].
+    unfold gsub_lookup_wf5 in Hw. apply orb_true_iff in Hw.
+    destruct Hw as [Hw|Hw]; [apply gsub_one_old; auto|apply gsub_one_ctx; auto].
+  Qed.
+
   Lemma gpos_head : forall lk l, gpos_lookup_wf F lk = true ->
     lookup_toks U F k_GPOS lk l = tk TIdent k_GPOS1 l :: tl (lookup_toks U F k_GPOS lk l).
   Proof.
@@ -2529,6 +2628,15 @@ Theorem parse_explain_gsub5 : forall U F ll,
 Proof.
   intros U F ll HF HK Hll. unfold M_parse. rewrite (ProofsExplain.lex_explain_gsub5 U F HF ll Hll).
   unfold M_parse_tokens. rewrite (gsub5_parse_ok U F HF _ HK); auto.
+Qed.
+
+Theorem parse_explain_gsub6 : forall U F ll,
+  font_wf U F = true -> no_class_names F = true -> no_chain_names F = true ->
+  Forall (fun lk => gsub_lookup_wf6 F lk = true) ll ->
+  M_parse U F (M_explain_gsub U F ll) = POk ll.
+Proof.
+  intros U F ll HF HK HK6 Hll. unfold M_parse. rewrite (ProofsExplain.lex_explain_gsub6 U F HF ll Hll).
+  unfold M_parse_tokens. rewrite (gsub6_parse_ok U F HF _ HK HK6); auto.
 Qed.
 
 Theorem parse_explain_gpos : forall U F ll,
